@@ -454,6 +454,36 @@ theorem C14_client_server_roundtrip (C : Codec) (F : Flags) (st : Store) (d : Di
   rw [client_get_identity C F _ d cs hcs]
   exact (getValidated_ok C _ d none data).mpr ⟨rfl, by simp [Store.get_put], hv⟩
 
+theorem clientFindMissing_store (st : Store) (g : List Digest) :
+    clientFindMissing (storeMissing st none) g = .ok ((dedup g).filter fun d => (st.get d).isNone) := by
+  by_cases hg : g = []
+  · subst hg; simp [clientFindMissing, findMissing, dedup]
+  · rw [clientFindMissing_passthrough _ g hg]; rfl
+
+/-- **FindMissing through client and server for any set**, also one that spans several digest
+functions and instance names (`groups` = the partitions the client has to split it into): the
+answer is exactly the requested digests the backend lacks; and a backend failure fails the
+call. -/
+theorem C14_client_find_missing_partitions (st : Store) (groups : List (List Digest)) :
+    ∃ ms, clientFindMissingP (storeMissing st none) groups = .ok ms ∧
+      ∀ d, d ∈ ms ↔ (∃ g ∈ groups, d ∈ g) ∧ st.get d = none := by
+  induction groups with
+  | nil => exact ⟨[], rfl, by simp⟩
+  | cons g gs ih =>
+    obtain ⟨ms, hms, hmem⟩ := ih
+    refine ⟨((dedup g).filter fun d => (st.get d).isNone) ++ ms, ?_, ?_⟩
+    · simp [clientFindMissingP, clientFindMissing_store, hms]
+    · intro d
+      rw [List.mem_append, List.mem_filter, mem_dedup, hmem]
+      constructor
+      · rintro (⟨h1, h2⟩ | ⟨⟨g', hg', hd⟩, h2⟩)
+        · exact ⟨⟨g, by simp, h1⟩, by simpa using h2⟩
+        · exact ⟨⟨g', by simp [hg'], hd⟩, h2⟩
+      · rintro ⟨⟨g', hg', hd⟩, h2⟩
+        cases hg' with
+        | head => left; exact ⟨hd, by simp [h2]⟩
+        | tail _ hg'' => right; exact ⟨⟨g', hg'', hd⟩, h2⟩
+
 /-- The client never hands out content that does not match the digest, whatever a server sends. -/
 theorem C14_client_get_validates (C : Codec) (F : Flags) (cs : Nat) (d : Digest) (r : ReadOut) (c : Bytes)
     (h : clientGet C F cs d r = .ok c) : Valid C d c := by
